@@ -64,13 +64,25 @@ impl Prop for C08 {
         });
         // in a tenth of the nearest-latitude cases the substitute latitude is within 1e-8..1e-3 deg of the site's own
         // latitude (the borrowed times are then within microseconds..seconds of the conventional ones: a replaced time
-        // must still be flagged, an unflagged one must still equal the conventional time exactly)
-        (gen::site_lat(lat, 2.0), spec, gen::date(), 0u8..10, -3.0..=0.0f64, any::<bool>())
+        // must still be flagged, an unflagged one must still equal the conventional time exactly); one case in 16 is
+        // dedicated to this: a nearest-latitude 'always' policy, unrounded seconds, offset 3e-7..3e-5 deg (borrowed and
+        // conventional times 0.04..4 ms apart, i.e. on opposite sides of a second boundary in ~0.1 % of these cases)
+        (gen::site_lat(lat, 2.0), spec, gen::date(), 0u8..160, -3.0..=0.0f64, any::<bool>())
             .prop_map(|(site, mut spec, date, k, e, up)| {
-                if k == 0 && matches!(spec.policy, gen::P_NL_ALL | gen::P_NL_FI_ALWAYS | gen::P_NL_FI_INV) {
-                    let d = 10f64.powf(e * 8.0 / 3.0) * 1e-0 * 1e-0; // 1e-8 .. 1
-                    let d = d.min(1e-3).max(1e-8);
-                    spec.policy_lat = F((site.lat.0 + if up { d } else { -d }).clamp(-66.0, 66.0));
+                let sgn = if up { 1.0 } else { -1.0 };
+                if k < 10 {
+                    spec.policy = if k % 2 == 0 { gen::P_NL_ALL } else { gen::P_NL_FI_ALWAYS };
+                    spec.rounding = 0;
+                    if spec.method >= 7 {
+                        spec.method = gen::ANGLE_METHODS[k as usize % 6];
+                    }
+                    spec.fajr_interval = None;
+                    spec.isha_interval = None;
+                    let d = 3e-7 * 100f64.powf(-e / 3.0);
+                    spec.policy_lat = F((site.lat.0 + sgn * d).clamp(-66.0, 66.0));
+                } else if k < 26 && matches!(spec.policy, gen::P_NL_ALL | gen::P_NL_FI_ALWAYS | gen::P_NL_FI_INV) {
+                    let d = 10f64.powf(e * 5.0 / 3.0 - 3.0); // 1e-8 .. 1e-3
+                    spec.policy_lat = F((site.lat.0 + sgn * d).clamp(-66.0, 66.0));
                 }
                 Case { site, spec, date }
             })
